@@ -968,7 +968,7 @@ def c06_sigma_search(rp, seed):
     sizes = [len(x) for x in rp["game"]]
     for k in range(3000):
         beta = 25 / 6
-        gm = [[[enc(rnd.uniform(-60, 120)), enc(rnd.choice([0.01, 0.5, 3.0, 8.0, 30.0]))] for _ in range(n)] for n in sizes]
+        gm = [[[enc(rnd.uniform(-60, 120)), enc(rnd.choice([5e-4, 2e-3, 0.01, 0.5, 3.0, 8.0, 30.0]))] for _ in range(n)] for n in sizes]
         r2 = dict(rp, game=gm, params=_std_params(tau=rnd.choice([0.0, 25 / 300, 1.0])))
         try:
             bad, msg = c06_sigma(r2)
